@@ -863,8 +863,22 @@ func formatArg(fr *frame, verb string, a value) value {
 	case *sym:
 		// small symbolic integers: enumerate (exact); wider ones are rendered opaquely - formatted text of a
 		// symbolic number is outside every claim (number text, DESIGN §7) and only occurs in error messages
-		if kindWidth(v.k) <= 8 && !kindIsFloat(v.k) && !X.IntMode {
-			return fmt.Sprintf("%"+verb[1:], concretize(v))
+		if !kindIsFloat(v.k) && !X.IntMode {
+			w := kindWidth(v.k)
+			small := w <= 8
+			if !small {
+				// also exact when the path condition confines the value to 0..255
+				var out *smt.Term
+				if kindSigned(v.k) {
+					out = smt.Or(smt.BVSlt(v.t, smt.BVConst(0, w)), smt.BVSgt(v.t, smt.BVConst(255, w)))
+				} else {
+					out = smt.BVUgt(v.t, smt.BVConst(255, w))
+				}
+				small = !X.Feasible(out)
+			}
+			if small {
+				return fmt.Sprintf("%"+verb[1:], concretize(v))
+			}
 		}
 		X.stub("fmt of a symbolic number rendered as <sym>")
 		return "<sym>"
